@@ -34,6 +34,7 @@ completely (shared with C01.6).
 Fifth round: C07.1 a victim scan by position starts at position 0 of the reversed queue; C07.5 the merge of the sub-queues compares whole entries (shared with C06.5).
 Sixth round: C07.3 what Server.remove gives back is exactly what Server.put took (shared with C01.2).
 Seventh round: C07.2 an instance is listed by one allocation only - Cell.add_app takes it out of the allocation it belonged to before it joins another (a stale second entry makes the backward scan displace an instance that is ahead; shared with C06.5); C07.3 the affinity counters of a node follow what is attached below it, so the limit test of Server.restore cannot refuse a victim displaced for nothing (shared with C04.1).
+Eighth round: C07.5 the pending flag of a queue entry is `0 if app.server else 1` for every instance, whatever its priority (entry layout shared with C06.4).
 Does NOT decide the relation between queue order and the before/after
 placements of a whole cycle (a property of the run).
 """
